@@ -41,6 +41,21 @@ CLAIMED = {
   "The ttlv package is re-compiled with sync.Map operations as scheduling points and caches reset to cold before each execution; every result under any explored interleaving or history (all sequences of <=3/4 operations incl. reused cleared encoders, versions 1.0-1.4, binary/XML/JSON) must equal the result of the same call alone in a fresh process.",
   "Trusted: instrumenter + mc shims; sequential consistency. The 'no data race' clause is only examined by a dynamic -race pass on finitely many free runs (supporting evidence).",
   "DESIGN.md §3 C20"),
+ "C07": ("model_checking", "seqmc",
+  "explicit-state search over transport answers: deviation-bounded enumeration of Read sizes, all 2^(L-1) segmentations of short streams, all truncation offsets, announced lengths around the limit; reference model = split the stream at announced padded lengths",
+  "The real ttlv.Stream.Recv is driven over a reader that owns every answer to Read(p); for every explored answer sequence the returned messages, the consumed offset after each message, the behaviour at truncation and at over-limit headers (largest read requested, bytes allocated) are compared with the reference.",
+  "Trusted: 30-line reference; the transport returns 1..len(p) bytes per successful Read. Message sizes {8,16,24,520,1032}, sequences <=3, deviation bound 2 (quick) / 3 (thorough), segmentations L<=16 / 24.",
+  "DESIGN.md §3 C07"),
+ "C09": ("model_checking", "seqmc",
+  "explicit-state exhaustive enumeration of request batches (length, continuation option, per-item outcome, version, batch count, IDs) on the real BatchExecutor against a reference executor, including the handler call log",
+  "Every combination up to the length bound is run through BatchExecutor.HandleRequest; response shape, echoed operations/IDs, per-item status, header version/count and the order and number of handler invocations are compared with a 40-line reference executor.",
+  "Trusted: reference executor. Length bound 4 (quick, 134k cases) / 6 (thorough). Random longer batches are not covered.",
+  "DESIGN.md §3 C09"),
+ "C19": ("model_checking", "seqmc",
+  "explicit-state enumeration of middleware programs (all chains up to length 3/4 over 8 stage behaviours) on the real client chain, server message chain and server batch-item chain, compared with a recursive reference interpreter",
+  "Every chain is executed on the real code (the client over an in-process pipe to an echo server); the recorded trace of stage entries (context marker, message identity), core invocations and returned results must equal the reference interpreter's trace.",
+  "Trusted: 30-line reference interpreter. The concurrent clause (shared chain under concurrent requests) is covered only structurally (continuations hold no shared state after the fix); see DESIGN.md.",
+  "DESIGN.md §3 C19"),
 }
 NOT_YET = "check not built yet in this session (planned, see DESIGN.md §3)"
 NA = {}
